@@ -292,6 +292,27 @@ UNITS.append(Unit('rdr.read_block', ('CdnsReader::read_block', None), contract=R
                   note='every exception raised by the decoder while looking for the next block or reading it propagates: a truncated file is never reported as a clean end; '
                        'a block is returned (counter + 1) only after CdnsBlockRead::read returned normally'))
 
+ILI_C = '''
+__CPROVER_requires(__CPROVER_w_ok($this, sizeof(*$this)) && g_exc == 0 && RD_FRESH)
+__CPROVER_assigns(__CPROVER_object_whole($this), ''' + RD_GHOSTS + ''')
+__CPROVER_ensures(g_exc == 0 || g_exc == EXC_CdnsDecoderException || g_exc == EXC_CdnsDecoderEnd)
+__CPROVER_ensures(g_exc == 0 ==> (RD_ARRAY_DONE && $this->list.n == rd_cnt1))
+__CPROVER_ensures((g_exc == 0 && g_Ei < $this->list.n && g_Ei == $this->list.wi) ==> (g_eseen && $this->list.wv == (unsigned int)g_elast))
+'''
+ILI_L = '''
+  __CPROVER_assigns(__CPROVER_object_whole($this), $L2, ''' + RD_GHOSTS + ''')
+  __CPROVER_loop_invariant(g_exc == 0 && rd_depth == 1 && !rd_topmap && !rd_bad && !rd_done1 && !rd_break_pending && (rd_indef1 ? $L1 : (!$L1 && $L2 == rd_left1)))
+  __CPROVER_loop_invariant($this->list.n == rd_cnt1 && rd_cnt1 <= (1UL << 60))
+  __CPROVER_loop_invariant((g_Ei < $this->list.n && g_Ei == $this->list.wi) ==> (g_eseen && $this->list.wv == (unsigned int)g_elast))
+'''
+UNITS.append(Unit('r.IndexListItem', ('IndexListItem::read', None), contract=ILI_C, loops={1: ILI_L}, prelude=P, extern_records=EXT, stubs=DEC_STUBS + ['seq_[A-Za-z0-9_]+__reserve'],
+                  inline=[('IndexListItem::reset', None)], arrays_uf=False,
+                  pre_c='#define SEQ_RESERVE_CHECK(n) __CPROVER_assert((n) <= 65536UL, "vector.reserve: allocation not sized by an unchecked length field (at most 64 Ki elements ahead of the data)");\n',
+                  setup='  static struct IndexListItem obj; struct CdnsDecoder dec;\n  rd_init();\n  __CPROVER_assume(rd_cnt1 == 0);\n', args=['&obj', '&dec'], props=['C03', 'C08', 'C01'], timeout=600,
+                  post='  if (g_exc != 0) { CANARY("decoder exception reachable"); }',
+                  note='index list: array of any length, definite or indefinite: the list receives exactly the delivered elements in order; '
+                       'no allocation is sized by the unchecked length field of the array head'))
+
 RFH_C = '''
 __CPROVER_requires(__CPROVER_w_ok($this, sizeof(*$this)) && g_exc == 0 && H.step == 0 && !H.seq_bad && !H.raised)
 __CPROVER_assigns(__CPROVER_object_whole($this), H, g_lit, g_exc)
